@@ -1,9 +1,219 @@
-import Witverif.Abi.Resource
+import Witverif.Proofs.Resource
+/-!
+# C07 — Rust guest bindings keep resource and handle ownership exact
+
+Model: `Abi/Resource.lean` — `Sys`, the generated resource glue (`Resource<T>`:
+`from_handle/take_handle/handle/Drop`; exported resources: `new/_resource_new/rep/dtor`,
+`Borrow::lift`; `HandleLower/HandleLift`, `handle_decls`) together with *any* safe user code, against
+the host's handle table and the heap of representations, as a transition system over the events of a
+host history (lower/lift of own and borrow handles, the three resource built-ins, destructor runs,
+export call scopes).  `trap` = the host or the heap rejects what the glue does.
+
+All statements quantify over **every** reachable state, i.e. every finite history of
+create / borrow / transfer / drop events in any order and interleaving, any number of resources and
+handles, any index allocation policy of the host.  Tie to the real code: `./check C07` — the generated
+glue runs natively against a mock host; each recorded history must be accepted by the host rules
+(`HostSpec`, spec side) and be a trace of this model (`runScript`).
+-/
 namespace Witverif.Props.C07
 open Witverif.Abi.Resource
-theorem placeholder_lend_unchanged (s s' : Sys) (h : Nat) (hs : s.step (.lend h) = .ok s') : s' = s := by
+
+/-- states reachable from the empty instance by events the model can perform -/
+inductive Reach : Sys → Prop
+  | init : Reach {}
+  | step {s s' : Sys} (ev : Ev) : Reach s → s.step ev = .ok s' → Reach s'
+
+theorem reach_inv {s : Sys} (h : Reach s) : Inv s := by
+  induction h with
+  | init => exact inv_init
+  | step ev _ hs ih => exact step_inv _ _ ev ih hs
+
+/-- **No history makes the host or the heap reject the glue.**  From any reachable state, no event
+traps: no built-in is ever called on an index the guest does not hold, no destructor runs twice, no
+representation is used after it was destroyed, no export returns with a borrow outstanding, nothing
+is left in the table when all Rust values are gone. -/
+theorem never_traps {s : Sys} (h : Reach s) (ev : Ev) (w : String) : s.step ev ≠ .trap w :=
+  step_no_trap s ev (reach_inv h) w
+
+/-- … as a statement about whole histories (`Sys.run` = fold of `step`, as used on recorded traces). -/
+theorem run_never_traps (evs : List Ev) : ∀ (s : Sys) (i j : Nat) (w : String), Inv s → Sys.run s evs i ≠ .trap j w := by
+  induction evs with
+  | nil => intro s i j w _ h; simp [Sys.run] at h
+  | cons e es ih =>
+      intro s i j w hi h
+      simp only [Sys.run] at h
+      cases hs : s.step e with
+      | ok s' => rw [hs] at h; exact ih s' (i + 1) j w (step_inv s s' e hi hs) h
+      | trap w' => exact step_no_trap s e hi w' hs
+      | disabled w' => rw [hs] at h; cases h
+
+/-- the glue cannot emit any built-in call or transfer on index `h` -/
+def Silent (s : Sys) (h : Nat) : Prop :=
+  (∃ w, s.step (.ownMinus h) = .disabled w) ∧ (∃ w, s.step (.drop h) = .disabled w) ∧
+  (∃ w, s.step (.lend h) = .disabled w) ∧ (∀ r, ∃ w, s.step (.rep h r) = .disabled w)
+
+theorem silent_of_no_cell (s : Sys) (h : Nat) (hc : s.cells.get h = none) : Silent s h := by
+  refine ⟨?_, ?_, ?_, ?_⟩ <;> simp [Sys.step, hc]
+
+/-- **Owned handles passed to imports or returned from exports are transferred exactly once, and never
+used afterwards** (`own_transferred_once`, `no_use_after_take`): after the transfer the wrapper value
+is gone, the index is out of the table, and the glue cannot produce another transfer, drop, borrow or
+`resource.rep` of that index. -/
+theorem own_transferred_once {s s' : Sys} {h : Nat} (hs : s.step (.ownMinus h) = .ok s') :
+    s'.table.get h = none ∧ s'.cells.get h = none ∧ Silent s' h := by
   simp only [Sys.step] at hs
   split at hs
-  · split at hs <;> simp_all
-  · simp at hs
+  · split at hs
+    · simp only [Outcome.ok.injEq] at hs; subst hs
+      exact ⟨by simp [Map.get_del], by simp [Map.get_del], silent_of_no_cell _ h (by simp [Map.get_del])⟩
+    · simp only [Outcome.ok.injEq] at hs; subst hs
+      exact ⟨by simp [Map.get_del], by simp [Map.get_del], silent_of_no_cell _ h (by simp [Map.get_del])⟩
+    · cases hs
+  · cases hs
+
+theorem no_use_after_take {s s' : Sys} {h : Nat} (hs : s.step (.ownMinus h) = .ok s') : Silent s' h :=
+  (own_transferred_once hs).2.2
+
+/-- **Owned handles received are dropped exactly once when their Rust value is dropped**
+(`own_received_dropped_once`): dropping the value produces the `resource.drop` (the event), after
+which the index is out of the table and no second drop (or any other use) can be produced … -/
+theorem own_received_dropped_once {s s' : Sys} {h : Nat} (hs : s.step (.drop h) = .ok s') :
+    s'.table.get h = none ∧ s'.cells.get h = none ∧ Silent s' h := by
+  simp only [Sys.step] at hs
+  split at hs
+  · split at hs
+    · split at hs
+      · simp only [Outcome.ok.injEq] at hs; subst hs
+        exact ⟨by simp [Map.get_del], by simp [Map.get_del], silent_of_no_cell _ h (by simp [Map.get_del])⟩
+      · cases hs
+    · simp only [Outcome.ok.injEq] at hs; subst hs
+      exact ⟨by simp [Map.get_del], by simp [Map.get_del], silent_of_no_cell _ h (by simp [Map.get_del])⟩
+    · cases hs
+  · cases hs
+
+/-- … and no handle leaks: in every reachable state each table entry is held by a live Rust value, so
+once all values are dropped the table is empty. -/
+theorem no_handle_leak {s : Sys} (hr : Reach s) :
+    (∀ h e, s.table.get h = some e → (s.cells.get h).isSome = true) ∧
+    (s.cells.isEmpty = true → s.table.isEmpty = true) := by
+  have hi := reach_inv hr
+  refine ⟨hi.entry_cell, fun hc => ?_⟩
+  cases ht : s.table.isEmpty with
+  | true => rfl
+  | false =>
+      obtain ⟨k, v, hk⟩ := Map.exists_get_of_not_isEmpty s.table ht
+      have := hi.entry_cell k v hk
+      rw [Map.isEmpty_get s.cells hc k] at this
+      simp at this
+
+/-- **Borrowed handles are never dropped by the guest** (`borrow_never_dropped`), in the reading
+fixed in DESIGN §7 C07: (a) lowering a `borrow` argument leaves every wrapper value, the table and
+the heap untouched; (b) a borrow of an exported resource is a representation pointer: no built-in,
+no state change; (c) when an export returns, no scoped borrow index of that call is left (and, by
+`never_traps`, the return is never rejected). -/
+theorem borrow_never_dropped :
+    (∀ (s s' : Sys) (h : Nat), s.step (.lend h) = .ok s' → s' = s) ∧
+    (∀ (s s' : Sys) (rep : Nat), s.step (.use rep) = .ok s' → s' = s) ∧
+    (∀ (s s' : Sys) (k : Nat), s.step (.callEnd k) = .ok s' → hasBorrowOf s'.table k = false ∧ hasTempOf s'.cells k = false) := by
+  refine ⟨?_, ?_, ?_⟩
+  · intro s s' h hs
+    simp only [Sys.step] at hs
+    split at hs
+    · split at hs <;> simp_all
+    · cases hs
+  · intro s s' rep hs
+    simp only [Sys.step] at hs
+    split at hs
+    · cases hs
+    · split at hs <;> simp_all
+  · intro s s' k hs
+    simp only [Sys.step] at hs
+    split at hs
+    · cases hs
+    split at hs
+    · cases hs
+    split at hs
+    · cases hs
+    rename_i _ ht hb
+    simp only [Outcome.ok.injEq] at hs; subst hs
+    exact ⟨by simpa using hb, by simpa using ht⟩
+
+/-- **An exported resource's Rust value is reached through every handle to it**
+(`exported_rep_reachable_through_every_handle`): in every reachable state, for every own handle of
+the exported resource in the table, the representation is alive and `resource.rep` on that handle
+succeeds (the wrapper exists, the host answers with that very representation, the value is there). -/
+theorem exported_rep_reachable_through_every_handle {s : Sys} (hr : Reach s) (h rep : Nat)
+    (ht : s.table.get h = some (.own (.exp rep))) :
+    s.heap.has rep = true ∧ s.step (.rep h rep) = .ok s := by
+  have hi := reach_inv hr
+  have hl := hi.exp_live h rep ht
+  obtain ⟨c, hc⟩ := Option.isSome_iff_exists.mp (hi.entry_cell h _ ht)
+  have ⟨h1, h2⟩ := hi.cell_own h c _ hc ht
+  obtain ⟨ex, tmp⟩ := c
+  simp only [Res.isExp] at h1 h2
+  subst h1; subst h2
+  exact ⟨hl, by simp [Sys.step, hc, ht, hl]⟩
+
+/-- **… and destroyed exactly once, when the host drops it** (`exported_dtor_once`): a destructor run
+(the host dropping a resource it owns, or the guest dropping an own handle of its own resource)
+removes the value, after which nobody owns the resource any more, so no second run can happen; and
+in every reachable state each live value has exactly one owner (one guest handle or the host), so
+none is destroyed early and none is forgotten. -/
+theorem exported_dtor_once {s : Sys} (hr : Reach s) :
+    (∀ s' rep, s.step (.hostDrop rep) = .ok s' →
+        s'.heap.has rep = false ∧ s'.hostOwned.has rep = false ∧ (∀ h, s'.table.get h ≠ some (.own (.exp rep))) ∧
+        ∃ w, s'.step (.hostDrop rep) = .disabled w) ∧
+    (∀ s' h rep, s.table.get h = some (.own (.exp rep)) → s.step (.drop h) = .ok s' →
+        s'.heap.has rep = false ∧ s'.hostOwned.has rep = false ∧ (∀ h', s'.table.get h' ≠ some (.own (.exp rep)))) ∧
+    (∀ rep, s.heap.has rep = true →
+        ((∃ h, s.table.get h = some (.own (.exp rep))) ∨ s.hostOwned.has rep = true) ∧
+        ¬ ((∃ h, s.table.get h = some (.own (.exp rep))) ∧ s.hostOwned.has rep = true)) := by
+  have hi := reach_inv hr
+  refine ⟨?_, ?_, ?_⟩
+  · intro s' rep hs
+    simp only [Sys.step] at hs
+    split at hs
+    · cases hs
+    rename_i ho
+    split at hs
+    · simp only [Outcome.ok.injEq] at hs; subst hs
+      have hno := (hi.owned_live rep (by simpa using ho)).2
+      refine ⟨by simp [NSet.has_del], by simp [NSet.has_del], hno, ?_⟩
+      simp [Sys.step, NSet.has_del]
+    · cases hs
+  · intro s' h rep ht hs
+    simp only [Sys.step] at hs
+    split at hs
+    · rw [ht] at hs
+      simp only at hs
+      split at hs
+      · simp only [Outcome.ok.injEq] at hs; subst hs
+        refine ⟨by simp [NSet.has_del], ?_, ?_⟩
+        · cases ho : s.hostOwned.has rep with
+          | false => rfl
+          | true => exact absurd ht ((hi.owned_live rep ho).2 h)
+        · intro h' e
+          simp only [Map.get_del] at e
+          split at e
+          · cases e
+          · rename_i hne
+            exact hne (hi.uniq h h' rep ht e)
+      · cases hs
+    · cases hs
+  · intro rep hl
+    refine ⟨hi.no_orphan rep hl, ?_⟩
+    rintro ⟨⟨h, ht⟩, ho⟩
+    exact (hi.owned_live rep ho).2 h ht
+
+/-! ## non-vacuity: a history exercising every event is a run of the model that ends `ok` -/
+
+example :
+    (match Sys.run {} [.callBegin 1, .new 5 4096, .callEnd 1, .ownMinus 5,          -- constructor: guest creates, host receives
+      .callBegin 2, .use 4096, .borPlus 6 (.imp 1) 2, .lend 6, .drop 6, .callEnd 2,  -- method call + scoped borrow of an imported resource
+      .ownPlus 7 (.imp 2), .lend 7, .ownMinus 7,                                    -- imported own: lent, then transferred
+      .callBegin 3, .ownPlus 8 (.exp 4096), .rep 8 4096, .drop 8, .callEnd 3,       -- host hands the exported resource back: guest drops it (dtor)
+      .done] 0 with | .ok _ => true | _ => false) = true ∧
+    (match Sys.run {} [.ownPlus 7 (.imp 2), .ownMinus 7, .drop 7] 0 with | .disabled 2 _ => true | _ => false) = true := by
+  decide
+
 end Witverif.Props.C07
